@@ -166,6 +166,13 @@ def run(spec):
                               'diverging_cases': len(ties), 'searched_cases': len(cases) + extra_run})
             violations.append(f'VIOLATION property={prop} replay={p} no-failing-input-found')
 
+    # 3b. optional second correspondence of the property (e.g. a sequential differential run)
+    extra_info = None
+    if spec.get('extra_check'):
+        extra_info = spec['extra_check'](dict(prop=prop, tier=tr, seed=base_seed, rng=rng, replay=replay))
+        for v in extra_info.get('violations', []):
+            violations.append(v)
+
     # 4. evidence -------------------------------------------------------------------------
     nontriv = set()
     dist = {}
@@ -186,6 +193,11 @@ def run(spec):
         'disagreements_checked': kinds['tie'],
         'explanation': f"theorems: {[t[0] for t in audit['theorems']]}; correspondence: {kinds}; corpus cases {len(corpus)}; extra search cases {extra_run}; distribution {dist}",
     }
+    if extra_info:
+        cov['evaluations'] += extra_info.get('evaluations', 0)
+        cov['traces_validated_against_impl'] += extra_info.get('validated', 0)
+        cov['disagreements_checked'] += extra_info.get('disagreements', 0)
+        cov['explanation'] += '; ' + extra_info.get('explanation', '')
     write_evidence(prop, tr, base_seed, cov, time.time() - t0, len(violations),
                    assumptions=spec.get('assumptions', []))
     print(f"{prop}: theorems {audit['discharged']}/{audit['obligations']} audited; E1 cases {len(cases)} (+{extra_run} extra): {kinds}; nontrivial distinct {len(nontriv)}; {time.time()-t0:.1f}s")
